@@ -249,7 +249,7 @@ namespace {
             if (g.cfg.pause_p > 0 && g.sched.chance(g.cfg.pause_p)) pause_here = true;
             // "hot" sites: in this run, decision points whose site name falls into the chosen hash buckets pause often
             else if (g.cfg.hot_buckets && ((g.cfg.hot_buckets >> (hash_str(site) & 15)) & 1) && g.sched.chance(g.cfg.hot_pause_p)) pause_here = true;
-            else if (!g.cfg.hot_sites.empty() && std::find(g.cfg.hot_sites.begin(), g.cfg.hot_sites.end(), std::string(site)) != g.cfg.hot_sites.end() && g.sched.chance(g.cfg.hot_pause_p)) pause_here = true;
+            else if (!g.cfg.hot_sites.empty() && (g.cfg.hot_thread_prefix.empty() || self->name.compare(0, g.cfg.hot_thread_prefix.size(), g.cfg.hot_thread_prefix) == 0) && std::find(g.cfg.hot_sites.begin(), g.cfg.hot_sites.end(), std::string(site)) != g.cfg.hot_sites.end() && g.sched.chance(g.cfg.hot_pause_p)) pause_here = true;
         }
         if (pause_here) {
             g.pauses++;
